@@ -26,6 +26,13 @@
       the delivery protocol for consumers whose exception leaves their set_value (un_throw / bin_throw: the
       completion is delivered again as OValK, which the leaf turns into OErr tcode and a catching forwarder
       intercepts: un_in, bin_in, thrown, caught, leaf_out).  start and stop are unchanged.
+   5. Throwing connect (C02): LeafC id = a sender whose connect() throws ccode.  [cthrows e] = connect(e) throws
+      (the eagerly connected part of e contains a LeafC); [start] answers a throwing (late) connect with an inline
+      OErr ccode and no events ([sthrows]); run_start yields XConnectThrow when the whole expression cannot be
+      connected.
+      Blocks (C12): UAllocate / UWithAlloc, e_alloc, TAlloc / TFree: allocate takes its block from the receiver's
+      allocator when it is connected and returns it when it is destroyed or when the child's connect throws
+      ([conn], [unw], [sconn], [un_pre]; [dtor] returns the block of a started allocate).
 
    A sender expression is a tree over the library's algorithms; the operation state of a connected
    expression is a tree [ost] of the same shape.  Three entry points, all structurally recursive
@@ -87,7 +94,10 @@ Inductive ukind :=
                               requests stop on the source before returning *)
 | URepeat (l : list bool)   (* [Calc2] repeat_effect_until(s, pred): the k-th call of pred returns the k-th element
                               of l, true when l is exhausted *)
-| UIntoVar.                 (* [Calc2] into_variant(s) (the variant unpacked again: identity on the one value) *)
+| UIntoVar                  (* [Calc2] into_variant(s) (the variant unpacked again: identity on the one value) *)
+| UWithAlloc (a : nat)      (* [Calc2 stage 5] with_allocator(s, allocator a) = with_query_value(s, get_allocator, a) *)
+| UAllocate.                (* [Calc2 stage 5] allocate(s): the child operation lives in a block taken from
+                              get_allocator(receiver) when the operation is connected, returned when it is destroyed *)
 
 Inductive bkind :=
 | BLetV | BLetE | BLetD     (* let_value / let_error / let_done: b is the successor, may use Var 0 *)
@@ -110,6 +120,7 @@ Inductive sexpr :=
 | LeafR (id lvl : nat)      (* [Calc2] then(leaf id, f) where f first requests stop on the source of the lvl-th
                               enclosing let_value_with_stop_source (0 = outermost) and then returns its argument *)
 | StopIf                    (* [Calc2] stop_if_requested(): done if stop was requested, value (0) otherwise *)
+| LeafC (id : nat)          (* [Calc2 stage 5] a sender whose connect() throws error [ccode]; it is never started *)
 | Un (k : ukind) (s : sexpr)
 | Bin (k : bkind) (a b : sexpr).
 
@@ -121,31 +132,35 @@ Record env := {
   e_q0 : Z; e_q1 : Z;        (* two custom query CPOs (0 = default answer) *)
   e_sched : nat;             (* [Calc2] get_scheduler(r): the context of the receiver's scheduler *)
   e_ss : nat;                (* [Calc2] number of enclosing let_value_with_stop_source operations *)
+  e_alloc : nat;             (* [Calc2 stage 5] get_allocator(r): the allocator the receiver answers with (root: 0) *)
   e_bound : list Z           (* values bound by enclosing let_* (innermost first) *)
 }.
 
 Definition env_with_stop (en : env) (s : bool) : env :=
-  {| e_stopped := s; e_stoppable := e_stoppable en; e_root := e_root en; e_q0 := e_q0 en; e_q1 := e_q1 en; e_sched := e_sched en; e_ss := e_ss en; e_bound := e_bound en |}.
+  {| e_stopped := s; e_stoppable := e_stoppable en; e_root := e_root en; e_q0 := e_q0 en; e_q1 := e_q1 en; e_sched := e_sched en; e_ss := e_ss en; e_alloc := e_alloc en; e_bound := e_bound en |}.
 Definition env_bind (en : env) (v : Z) : env :=
-  {| e_stopped := e_stopped en; e_stoppable := e_stoppable en; e_root := e_root en; e_q0 := e_q0 en; e_q1 := e_q1 en; e_sched := e_sched en; e_ss := e_ss en; e_bound := v :: e_bound en |}.
+  {| e_stopped := e_stopped en; e_stoppable := e_stoppable en; e_root := e_root en; e_q0 := e_q0 en; e_q1 := e_q1 en; e_sched := e_sched en; e_ss := e_ss en; e_alloc := e_alloc en; e_bound := v :: e_bound en |}.
 Definition env_q (en : env) (q : nat) (v : Z) : env :=
   match q with
-  | O => {| e_stopped := e_stopped en; e_stoppable := e_stoppable en; e_root := e_root en; e_q0 := v; e_q1 := e_q1 en; e_sched := e_sched en; e_ss := e_ss en; e_bound := e_bound en |}
-  | _ => {| e_stopped := e_stopped en; e_stoppable := e_stoppable en; e_root := e_root en; e_q0 := e_q0 en; e_q1 := v; e_sched := e_sched en; e_ss := e_ss en; e_bound := e_bound en |}
+  | O => {| e_stopped := e_stopped en; e_stoppable := e_stoppable en; e_root := e_root en; e_q0 := v; e_q1 := e_q1 en; e_sched := e_sched en; e_ss := e_ss en; e_alloc := e_alloc en; e_bound := e_bound en |}
+  | _ => {| e_stopped := e_stopped en; e_stoppable := e_stoppable en; e_root := e_root en; e_q0 := e_q0 en; e_q1 := v; e_sched := e_sched en; e_ss := e_ss en; e_alloc := e_alloc en; e_bound := e_bound en |}
   end.
 Definition env_unstoppable (en : env) : env :=
-  {| e_stopped := false; e_stoppable := false; e_root := false; e_q0 := e_q0 en; e_q1 := e_q1 en; e_sched := e_sched en; e_ss := e_ss en; e_bound := e_bound en |}.
+  {| e_stopped := false; e_stoppable := false; e_root := false; e_q0 := e_q0 en; e_q1 := e_q1 en; e_sched := e_sched en; e_ss := e_ss en; e_alloc := e_alloc en; e_bound := e_bound en |}.
 Definition env_sched (en : env) (c : nat) : env :=
   {| e_stopped := e_stopped en; e_stoppable := e_stoppable en; e_root := e_root en; e_q0 := e_q0 en; e_q1 := e_q1 en;
-     e_sched := c; e_ss := e_ss en; e_bound := e_bound en |}.
+     e_sched := c; e_ss := e_ss en; e_alloc := e_alloc en; e_bound := e_bound en |}.
 (* children of when_all / stop_when see the algorithm's own stop source *)
 Definition env_own (en : env) (own_stop : bool) : env :=
-  {| e_stopped := own_stop; e_stoppable := true; e_root := false; e_q0 := e_q0 en; e_q1 := e_q1 en; e_sched := e_sched en; e_ss := e_ss en; e_bound := e_bound en |}.
+  {| e_stopped := own_stop; e_stoppable := true; e_root := false; e_q0 := e_q0 en; e_q1 := e_q1 en; e_sched := e_sched en; e_ss := e_ss en; e_alloc := e_alloc en; e_bound := e_bound en |}.
 
+Definition env_alloc (en : env) (a : nat) : env :=
+  {| e_stopped := e_stopped en; e_stoppable := e_stoppable en; e_root := e_root en; e_q0 := e_q0 en; e_q1 := e_q1 en;
+     e_sched := e_sched en; e_ss := e_ss en; e_alloc := a; e_bound := e_bound en |}.
 (* [Calc2] children of let_value_with_stop_source see the operation's own stop source *)
 Definition env_ss (en : env) (own_stop : bool) : env :=
   {| e_stopped := own_stop; e_stoppable := true; e_root := false; e_q0 := e_q0 en; e_q1 := e_q1 en;
-     e_sched := e_sched en; e_ss := S (e_ss en); e_bound := e_bound en |}.
+     e_sched := e_sched en; e_ss := S (e_ss en); e_alloc := e_alloc en; e_bound := e_bound en |}.
 
 (* observable events, compared one by one with the real library's run *)
 Inductive tev :=
@@ -160,7 +175,9 @@ Inductive tev :=
 | TSchedDtor (c : nat)                 (* [Calc2] a started schedule() operation of context c was destroyed *)
 | TReqStop (id lvl : nat)              (* [Calc2] the callable of LeafR id runs: requests stop on source lvl *)
 | TPred (b : bool)                     (* [Calc2] repeat_effect_until's predicate was called and returned b *)
-| TGate (ok : bool).                   (* [Calc2] retry_when's function was called; ok = it returned the trigger *)
+| TGate (ok : bool)                    (* [Calc2] retry_when's function was called; ok = it returned the trigger *)
+| TAlloc (a : nat)                     (* [Calc2 stage 5] allocate took a block from allocator a *)
+| TFree (a : nat).                     (* [Calc2 stage 5] allocate returned its block to allocator a *)
 
 (* per-node dynamic state *)
 Inductive phase := PFirst | PSecond | PBoth.
@@ -228,6 +245,7 @@ Definition un_env (k : ukind) (en : env) : env :=
   | UUnstoppable => env_unstoppable en
   | UWithSched c => env_sched en c
   | ULetSS now => env_ss en (now || e_stopped en)
+  | UWithAlloc a => env_alloc en a
   | _ => en
   end.
 
@@ -298,6 +316,8 @@ Fixpoint dtor (e : sexpr) (st : ost) : list tev :=
   | Sched _ c, OLeaf _ _ => [TSchedDtor c]
   | LeafR id _, OLeaf _ _ => [TLeafDtor id]
   | LeafR id _, OHeld _ => [TLeafDtor id]
+  | Un UAllocate s, ONode ns sc _ =>           (* [stage 5] allocate.hpp:61-64: the child operation, then the block *)
+      dtor s sc ++ [TFree (e_alloc (n_env ns))]
   | Un _ s, ONode _ sc _ => dtor s sc
   | Un _ s, OCompl sc _ => dtor s sc
   | Bin k a b, ONode _ sa sb => if dtor_b_first k then dtor b sb ++ dtor a sa else dtor a sa ++ dtor b sb
@@ -326,6 +346,10 @@ Definition un_nst (k : ukind) (en : env) : nst :=
   | ULetSS now => ns_set_own (ns_set_reg (mk_nst PFirst en) (negb (e_stopped en))) (now || e_stopped en)
   | _ => mk_nst PFirst en
   end.
+
+(* [stage 5] what connecting a unary node shows before its child is connected and started *)
+Definition un_pre (k : ukind) (en : env) : list tev :=
+  match k with UAllocate => [TAlloc (e_alloc en)] | _ => [] end.
 
 (* does a batch of events end with LeafR's request to stop source lvl ? *)
 Definition fired (lvl : nat) (tr : list tev) : bool :=
@@ -559,8 +583,10 @@ Definition leaky (k : bkind) : bool := false.
    A throw that leaves set_value travels down to the first catching forwarder, or to the leaf, which then
    completes with set_error: the thrower re-delivers the completion with OValK, which the leaf turns into
    OErr tcode and a catching forwarder intercepts. *)
-Definition un_fwd (k : ukind) : bool := match k with UUponErr _ | UUponDone _ | ULetSS _ => true | _ => false end.
-Definition un_catch (k : ukind) : bool := match k with UWithQ _ _ | UUnstoppable | UWithSched _ => true | _ => false end.
+Definition un_fwd (k : ukind) : bool :=
+  match k with UUponErr _ | UUponDone _ | ULetSS _ | UAllocate => true | _ => false end.   (* allocate has no receiver of its own *)
+Definition un_catch (k : ukind) : bool :=
+  match k with UWithQ _ _ | UUnstoppable | UWithSched _ | UWithAlloc _ => true | _ => false end.
 Definition un_throw (k : ukind) : bool := match k with UIntoVar => true | _ => false end.
 Definition un_in (k : ukind) (o : outcome) : outcome := if un_fwd k then o else tmode o.
 (* child i (false = a, true = b) of a binary node *)
@@ -578,8 +604,93 @@ Definition caught (c : bool) (o : outcome) (r : res) : res :=
   | _ => r
   end.
 
+(* ---- [Calc2 stage 5] connect() that throws ------------------------------------------------------------- *)
+Definition ccode : Z := 78.
+(* connecting e throws: e has a LeafC among the senders that connect(e) connects itself.  Every adaptor
+   connects its (first) child inside its own connect / operation constructor (then.hpp:182, upon_error.hpp:191,
+   upon_done.hpp:211, with_query_value.hpp:104, materialize.hpp:216, into_variant.hpp:133,
+   let_value_with_stop_source.hpp:180 (called from the operation's constructor), repeat_effect_until.hpp:163,
+   let_value.hpp:259, let_error.hpp:276, let_done.hpp:230, sequence.hpp:210, finally.hpp:536, retry_when.hpp:271,
+   allocate.hpp:56); when_all.hpp:78 and stop_when.hpp:196-198 connect both children; the second child of the
+   sequential kinds is connected later (see [sthrows]); when_any.hpp:48-75 connects only just(...) (the senders are
+   connected when its let_value successor is built: let_value.hpp:179, let_value_with.hpp:114). *)
+Fixpoint cthrows (e : sexpr) : bool :=
+  match e with
+  | LeafC _ => true
+  | Un _ s => cthrows s
+  | Bin k a b =>
+      match k with
+      | BWhenAll | BStopWhen => cthrows a || cthrows b
+      | BWhenAny => false
+      | _ => cthrows a
+      end
+  | _ => false
+  end.
+(* start() of a freshly connected e cannot happen if connecting e threw; in the model connect and start of a
+   lazily connected child are one step ([start b] in the sequential kinds), so [start] itself answers for
+   the throwing connect: the algorithms connect the late child inside a try and complete with
+   set_error(current_exception()), the finished child having been destroyed before
+   (sequence.hpp:146-158, let_value.hpp:146-194, let_error.hpp:117-138, let_done.hpp:101-112,
+   finally.hpp:385-403 / :416-434 / :442-456, retry_when.hpp:208-219 and :86-95, repeat_effect_until.hpp:87-100),
+   which is what these nodes do with a second child that fails inline.  when_any builds
+   when_all(let_value(a, store), let_value(b, store)) inside the outer let_value's try when it is started. *)
+Definition sthrows (e : sexpr) : bool :=
+  cthrows e || match e with Bin BWhenAny a b => cthrows a || cthrows b | _ => false end.
+
+(* Blocks and connect.  [al] = the allocator get_allocator answers with at this place of the expression (it only
+   changes under with_allocator).  [unw e al] = the blocks returned when a connected, never started operation of e is
+   destroyed (stack unwinding after a sibling's connect threw); [conn e al] = the blocks taken, and on a throw also
+   returned, while connect(e) runs, and whether it threw.  Order of construction / destruction:
+   allocate.hpp:51-57 allocate, connect into the block, the guard returns the block on a throw; :60-63 destructor;
+   when_all.hpp:73-78 _operation_tuple constructs its base (the later children) before its member (the earlier
+   child) and destroys in the opposite order; stop_when.hpp:284-286 sourceOp_ is declared before triggerOp_. *)
+Fixpoint unw (e : sexpr) (al : nat) : list tev :=
+  match e with
+  | Un (UWithAlloc a') s => unw s a'
+  | Un UAllocate s => unw s al ++ [TFree al]
+  | Un _ s => unw s al
+  | Bin k a b =>
+      match k with
+      | BWhenAll => unw a al ++ unw b al
+      | BStopWhen => unw b al ++ unw a al
+      | BWhenAny => []
+      | _ => unw a al
+      end
+  | _ => []
+  end.
+Fixpoint conn (e : sexpr) (al : nat) : list tev * bool :=
+  match e with
+  | LeafC _ => ([], true)
+  | Un (UWithAlloc a') s => conn s a'
+  | Un UAllocate s => let (tr, th) := conn s al in (TAlloc al :: tr ++ (if th then [TFree al] else []), th)
+  | Un _ s => conn s al
+  | Bin k a b =>
+      match k with
+      | BWhenAll =>
+          let (trb, thb) := conn b al in
+          if thb then (trb, true)
+          else let (tra, tha) := conn a al in
+               if tha then (trb ++ tra ++ unw b al, true) else (trb ++ tra, false)
+      | BStopWhen =>
+          let (tra, tha) := conn a al in
+          if tha then (tra, true)
+          else let (trb, thb) := conn b al in
+               if thb then (tra ++ trb ++ unw a al, true) else (tra ++ trb, false)
+      | BWhenAny => ([], false)
+      | _ => conn a al
+      end
+  | _ => ([], false)
+  end.
+(* what start() of e (connect + start of a late child) shows of a throwing connect *)
+Definition sconn (e : sexpr) (al : nat) : list tev :=
+  match e with
+  | Bin BWhenAny a b => fst (conn (Bin BWhenAll a b) al)
+  | _ => fst (conn e al)
+  end.
+
 (* ---- start / stop ----------------------------------------------------------------------------------- *)
 Fixpoint start (e : sexpr) (en : env) (cx : nat) {struct e} : res :=
+  if sthrows e then (OFin, sconn e (e_alloc en), Some (OErr ccode)) else   (* [stage 5] connecting e throws: nothing is started *)
   match e with
   | Just v => (OFin, [], Some (OVal v))
   | JustErr x => (OFin, [], Some (OErr x))
@@ -605,12 +716,15 @@ Fixpoint start (e : sexpr) (en : env) (cx : nat) {struct e} : res :=
         (OLeaf false true, [TLeafStart id true (e_stoppable en) (e_q0 en) (e_q1 en) (e_sched en) cx; TLeafStop id], None)
       else (OLeaf false false, [TLeafStart id false (e_stoppable en) (e_q0 en) (e_q1 en) (e_sched en) cx], None)
   | StopIf => (OFin, [], Some (if e_stopped en then ODone else OVal 0))
+  | LeafC _ => (OFin, [], Some (OErr ccode))      (* [stage 5] not reachable: sthrows (LeafC _) = true *)
   | Un k s =>
-      let '(sc, tr, r) := start s (un_env k en) cx in
+      let '(sc, tr0, r) := start s (un_env k en) cx in
+      let tr := un_pre k en ++ tr0 in
       match r with
       | Some o =>
           match k with
-          | URepeat l => rep_done l s (un_nst k en) sc tr o (sc, tr, r)
+          | URepeat l => rep_done l s (un_nst k en) sc tr o (sc, tr0, r)
+          | UAllocate => (ONode (un_nst k en) sc OFin, tr, Some o)     (* [stage 5] the node keeps its allocator *)
           | _ => un_done k s sc tr o
           end
       | None => (ONode (un_nst k en) sc OFin, tr, None)
@@ -691,6 +805,7 @@ with stop (e : sexpr) (st : ost) (cx : nat) {struct e} : res :=
           | Some o =>
               match k with
               | URepeat l => rep_done l s ns'' sc' tr o (start s (un_env k (n_env ns'')) cx)
+              | UAllocate => (ONode ns'' sc' OFin, tr, Some o)
               | _ => un_done k s sc' tr o
               end
           | None => (ONode ns'' sc' OFin, tr, None)
@@ -796,6 +911,7 @@ Fixpoint leafev (e : sexpr) (st : ost) (id : nat) (o : outcome) (cx : nat) : res
       | Some oc =>
           match k with
           | URepeat l => (rep_done l s ns sc' tr oc (start s (un_env k (n_env ns)) cx), hit)
+          | UAllocate => ((ONode ns sc' OFin, tr, Some oc), hit)
           | _ => (un_done k s sc' tr oc, hit)
           end
       | None =>
@@ -948,7 +1064,8 @@ Inductive xev :=                    (* run-level trace *)
 | XT (t : tev)
 | XRoot (o : outcome) (live_regs : nat) (cx : nat)  (* the root receiver completed on context cx; registrations on ITS token still live *)
 | XSkip                                    (* script entry that did not apply (unknown / finished leaf, second stop, empty queue) *)
-| XRootDtor.                               (* [Calc2] the owner destroys the completed root operation; the cascade follows *)
+| XRootDtor                                (* [Calc2] the owner destroys the completed root operation; the cascade follows *)
+| XConnectThrow.                           (* [Calc2 stage 5] connect() of the whole expression threw: nothing exists, nothing runs *)
 
 Record run_state := {
   r_st : ost; r_stopped : bool; r_roots : nat;   (* number of root completions so far *)
@@ -957,7 +1074,7 @@ Record run_state := {
 }.
 
 Definition root_env (stopped : bool) : env :=
-  {| e_stopped := stopped; e_stoppable := true; e_root := true; e_q0 := 0; e_q1 := 0; e_sched := 0; e_ss := 0; e_bound := [] |}.
+  {| e_stopped := stopped; e_stoppable := true; e_root := true; e_q0 := 0; e_q1 := 0; e_sched := 0; e_ss := 0; e_alloc := 0; e_bound := [] |}.
 
 Definition is_root_leak (x : xev) : bool := match x with XT (TLeak true) => true | _ => false end.
 
@@ -993,6 +1110,9 @@ Definition skip (rs : run_state) : run_state :=
 
 (* start() is called on context 0 *)
 Definition run_start (e : sexpr) (prestopped : bool) : run_state :=
+  if cthrows e then {| r_st := OFin; r_stopped := prestopped; r_roots := 0;
+                       r_tr := map XT (fst (conn e 0)) ++ [XConnectThrow]; r_queue := [] |}
+  else
   absorb {| r_st := OFin; r_stopped := prestopped; r_roots := 0; r_tr := []; r_queue := [] |}
          (start e (root_env prestopped) 0) 0.
 
